@@ -39,8 +39,8 @@ def _ignore(d, names):
 
 
 def run_variant(prop: str, v: Dict[str, Any], repo: str, renamed: bool = False) -> Dict[str, Any]:
-    """renamed=True: after the edit, the locals of every function of the edited files are renamed (upsa/alpha.py);
-    the rule must still fire — a clause that is quiet on renamed code would be quiet on a renamed defect."""
+    """renamed=True: after the edit, the locals of every function are renamed and the logic shape is rewritten (if/else
+    inverted, constant comparisons mirrored: upsa/alpha.py); the rule must still fire — a clause that is quiet on renamed code would be quiet on a renamed defect."""
     res = {"id": v["id"] + ("+renamed" if renamed else ""), "kind": v.get("kind", "break"), "expect": v["expect_rule"], "status": "?"}
     scratch = tempfile.mkdtemp(prefix=f"upsa_{prop}_")
     try:
@@ -66,7 +66,7 @@ def run_variant(prop: str, v: Dict[str, Any], repo: str, renamed: bool = False) 
             with open(path, "w") as fh:
                 fh.write(src)
         if renamed:
-            from .alpha import alpha_rename
+            from .alpha import alpha_rename, flatten_else, reshape_logic
 
             for root, _dirs, files in os.walk(os.path.join(scratch, "unified_planning")):
                 if "generated" in root:
@@ -77,6 +77,7 @@ def run_variant(prop: str, v: Dict[str, Any], repo: str, renamed: bool = False) 
                         with open(path) as fh:
                             src = fh.read()
                         new_src, _k = alpha_rename(src)
+                        new_src = flatten_else(reshape_logic(new_src))
                         with open(path, "w") as fh:
                             fh.write(new_src)
         env = dict(os.environ)
@@ -104,7 +105,7 @@ def run_alpha(prop: str, repo: str) -> Dict[str, Any]:
     """Neutrality: rename the local variables of every function of the package (upsa/alpha.py, a behaviour-preserving
     rewrite) and run the check on the result; the (rule, function) pairs it reports must be those of the unchanged
     tree. A difference means some rule keys on a spelling."""
-    from .alpha import alpha_rename, interleave_noops
+    from .alpha import alpha_rename, flatten_else, interleave_noops, reshape_logic
 
     res: Dict[str, Any] = {"id": "neutral-alpha-rename", "kind": "neutral", "expect": prop, "status": "?"}
     scratch = tempfile.mkdtemp(prefix=f"upsa_{prop}_alpha_")
@@ -120,7 +121,7 @@ def run_alpha(prop: str, repo: str) -> Dict[str, Any]:
                     with open(path) as fh:
                         src = fh.read()
                     new, k = alpha_rename(src)
-                    new = interleave_noops(new)
+                    new = interleave_noops(flatten_else(reshape_logic(new)))
                     compile(new, path, "exec")
                     renamed += k
                     with open(path, "w") as fh:
